@@ -63,7 +63,7 @@ def maxCodeLen (top : Nat) (tape : List (String × String)) : Nat :=
   tape.foldl (fun m (k, a) => if k.startsWith "gc:" then max m (a.length / 2) else m) top
 
 def fuelFor (gas : Nat) (top : Nat) (tape : List (String × String)) : Nat :=
-  (gas + 1) * (maxCodeLen top tape + 32 * gas + 2) + 2
+  2 * gas + 2
 
 def showRes (r : CallRes) (isCreate : Bool) : String :=
   match r.err with
